@@ -37,11 +37,24 @@ Definition peek (n : N) (r : reader) : (bytes + N) * reader :=
 Definition read_n (n : N) (r : reader) : bytes * reader :=
   (takeN n (rest r), mkR (dropN n (rest r)) None (terr r)).
 
-(* IsSynced(r Peeker) (ok bool, err error) *)
+(* err == io.EOF -> gots.ErrSyncByteNotFound, any other error as is *)
+Definition map_err (e : N) : N := if e =? E.EOF then E.SyncByteNotFound else e.
 Definition pidMask : N := 2096896.   (* 0x1fff << 8 *)
 Definition afcMask : N := 48.        (* 0x3 << 4 *)
-Definition is_synced (r : reader) : Res (bool * option N * reader) :=
-  let (p, r1) := peek 4 r in
+
+(* Sync and IsSynced only use the PeekScanner interface; they are written once over ANY
+   implementation (state type S with ReadByte / UnreadByte / Peek) and instantiated below with the
+   reader oracle, and in Model/Bufio.v with a model of bufio.Reader itself. *)
+Section Over.
+Variable St : Type.
+Variable rb : St -> Res ((N + N) * St).             (* ReadByte: byte or error *)
+Variable ub : St -> Res (option N * St).            (* UnreadByte: error or nil *)
+Variable pk : N -> St -> Res ((bytes + N) * St).    (* Peek n: bytes or error *)
+(* (the outer Res lets an implementation panic or diverge; the oracle never does) *)
+
+(* IsSynced(r Peeker) (ok bool, err error) *)
+Definition is_synced_over (r : St) : Res (bool * option N * St) :=
+  let? (p, r1) := pk 4 r in
   match p with
   | inr e => Ok (false, Some e, r1)
   | inl b =>
@@ -56,40 +69,48 @@ Definition is_synced (r : reader) : Res (bool * option N * reader) :=
     Ok ((pid <? 4) || (15 <? pid), None, r1)
   end.
 
-(* err == io.EOF -> gots.ErrSyncByteNotFound, any other error as is *)
-Definition map_err (e : N) : N := if e =? E.EOF then E.SyncByteNotFound else e.
-
 (* func Sync(r PeekScanner) (off int64, err error): result (off, err, reader afterwards).
    `off` only ever grows from 0 by 1 per consumed byte, so it is an N (int64 cannot overflow on
    a stream shorter than 2^63 bytes).  One loop iteration consumes exactly one byte, so
-   fuel = length + 1 suffices (sync_total in Proofs/SyncProofs.v). *)
-Fixpoint sync_loop (fuel : nat) (r : reader) (off : N) : Res (N * option N * reader) :=
+   fuel = length + 1 suffices (sync_total in Proofs/SyncProofs.v).
+   `repaired` = true: the code with the F1 repair (`off++` on the false-sync path);
+   `repaired` = false: the loop as pinned in /repo, kept only to state the defect. *)
+Fixpoint sync_loop_over (repaired : bool) (fuel : nat) (r : St) (off : N) : Res (N * option N * St) :=
   match fuel with
   | O => Diverge
   | S f =>
-    let (x, r1) := read_byte r in
+    let? (x, r1) := rb r in
     match x with
     | inr e => Ok (off, Some (map_err e), r1)
     | inl b =>
-      if negb (b =? SyncByte) then sync_loop f r1 (off + 1) else
-      let (u, r2) := unread_byte r1 in
+      if negb (b =? SyncByte) then sync_loop_over repaired f r1 (off + 1) else
+      let? (u, r2) := ub r1 in
       match u with
       | Some e => Ok (off, Some e, r2)
       | None =>
-        let? (ok, err, r3) := is_synced r2 in
+        let? (ok, err, r3) := is_synced_over r2 in
         if ok then Ok (off, None, r3) else
         match err with
         | Some e => Ok (off, Some (map_err e), r3)
         | None =>
-          let (y, r4) := read_byte r3 in
+          let? (y, r4) := rb r3 in
           match y with
           | inr e => Ok (off, Some (map_err e), r4)
-          | inl _ => sync_loop f r4 (off + 1)     (* repaired: off++ (F1) *)
+          | inl _ => sync_loop_over repaired f r4 (if repaired then off + 1 else off)   (* F1 *)
           end
         end
       end
     end
   end.
+End Over.
+
+(* ---- over the reader oracle ---- *)
+Definition o_rb (r : reader) := Ok (read_byte r).
+Definition o_ub (r : reader) := Ok (unread_byte r).
+Definition o_pk (n : N) (r : reader) := Ok (peek n r).
+Definition is_synced : reader -> Res (bool * option N * reader) := is_synced_over reader o_pk.
+Definition sync_loop : nat -> reader -> N -> Res (N * option N * reader) :=
+  sync_loop_over reader o_rb o_ub o_pk true.
 
 Definition sync_raw (r : reader) : Res (N * option N * reader) :=
   sync_loop (S (length (rest r))) r 0.
@@ -101,35 +122,10 @@ Definition sync (r : reader) : Res (N * reader) :=
 
 Definition start (l : bytes) (terr : N) : reader := mkR l None terr.
 
-(* ---- the loop as pinned in /repo BEFORE the repair of F1: the false-sync path does not advance
-   `off`.  Kept only to state the defect (Properties/C16.v C16_F1_pinned_refuted); no op uses it. *)
-Fixpoint sync_loop_pinned (fuel : nat) (r : reader) (off : N) : Res (N * option N * reader) :=
-  match fuel with
-  | O => Diverge
-  | S f =>
-    let (x, r1) := read_byte r in
-    match x with
-    | inr e => Ok (off, Some (map_err e), r1)
-    | inl b =>
-      if negb (b =? SyncByte) then sync_loop_pinned f r1 (off + 1) else
-      let (u, r2) := unread_byte r1 in
-      match u with
-      | Some e => Ok (off, Some e, r2)
-      | None =>
-        let? (ok, err, r3) := is_synced r2 in
-        if ok then Ok (off, None, r3) else
-        match err with
-        | Some e => Ok (off, Some (map_err e), r3)
-        | None =>
-          let (y, r4) := read_byte r3 in
-          match y with
-          | inr e => Ok (off, Some (map_err e), r4)
-          | inl _ => sync_loop_pinned f r4 off
-          end
-        end
-      end
-    end
-  end.
+(* ---- the loop as pinned in /repo BEFORE the repair of F1 (Properties/C16.v C16_F1_pinned_refuted);
+   no op uses it ---- *)
+Definition sync_loop_pinned : nat -> reader -> N -> Res (N * option N * reader) :=
+  sync_loop_over reader o_rb o_ub o_pk false.
 Definition sync_pinned (r : reader) : Res (N * reader) :=
   let? (off, err, r') := sync_loop_pinned (S (length (rest r))) r 0 in
   match err with None => Ok (off, r') | Some e => Err e end.
